@@ -22,6 +22,15 @@ TRANSFORMS = ['relabel', 'relabel-reverse', 'class', 'row-order', 'dense', 'pad-
 ZERO_ROUTES = ('zeros-ctor', 'zeros-assigned', 'zeros-dense-sparse')
 EMBED_MAX_VARS = 12
 N_QUICK = 600
+# second and third stream (appended AFTER the first one, which is left exactly as it was):
+#  * the same joint cases kept in a LOG base (entropy's log branch: -b**x * x summed with nansum, null outcomes stored as
+#    -inf / +inf), Shannon and multivariate families, every transformation;
+#  * ScalarDistribution arguments (entropy's non-joint branch) and the binary entropy of a float.
+N_QUICK_LOG = 140
+N_QUICK_SCALAR = 90
+LOG_BASES = [2, 'e', 10, 3.5, 0.5, 0.5]
+SCALAR_TRANSFORMS = ['relabel', 'relabel-reverse', 'class', 'row-order', 'dense', 'pad-space', 'zeros-ctor', 'zeros-assigned',
+                     'pmf-only', 'from-joint']
 
 
 def block_case(rng, n):
@@ -86,6 +95,15 @@ def gk_from_definition(rows, groups):
     return -sum(float(m) * math.log2(float(m)) for m in mass.values() if m > 0)
 
 
+def entropy_from_definition(rows, S):
+    """H[S] in bits from the definition: exact marginal masses of the variables S (Fractions), one float sum at the end."""
+    mass = {}
+    for o, p in rows:
+        k = tuple(o[i] for i in S)
+        mass[k] = mass.get(k, 0) + p
+    return -sum(float(m) * math.log2(float(m)) for m in mass.values() if m > 0)
+
+
 class C08(object):
     id = 'C08'
     rule = ("joint linear distributions of 2-4 variables (support drawn uniformly, or made of 2-3 blocks so that the "
@@ -100,7 +118,16 @@ class C08(object):
             "K / M common informations, Shannon partition and complexity profile, 6 PID redundancy measures): f(d) "
             "against f(T d). The untransformed value is also compared with the model's value (Float) for the "
             "entropy-combination measures, and K of both forms with the entropy of the connected components of the "
-            "support (its definition, exact masses). Non-trivial = at least 3 positive outcomes and a non-identity transformation")
+            "support (its definition, exact masses). Second stream: the same cases held in a log base (2, e, 10, 3.5, 0.5; null "
+            "outcomes stored as -inf / +inf), Shannon and multivariate families under every transformation with the "
+            "transformed form built in the same base; the model's value is compared in bits (value * log2 b). For the Shannon "
+            "family (any base) the entropy of every non-empty set of variables, on both forms, is also compared with "
+            "-sum p log p over the exact marginal. Third stream: ScalarDistribution arguments (atoms = the joint outcomes or "
+            "integer codes; bijective renaming, atom class, input order, stored / assigned zeros, larger sample space, "
+            "pmf-only form, from_distribution; entropy, multivariate.entropy, perplexity, extropy in any base, Renyi / "
+            "Tsallis linear) against the transformed form, the joint distribution and the definition, and the binary "
+            "entropy of a float p against h(p), h(1-p) and two-outcome distributions. "
+            "Non-trivial = at least 3 positive outcomes and a non-identity transformation")
     tolerances = {'closed forms': 'atol 1e-9', 'measures with an optimiser inside (CCS)': '1e-5'}
     exhaustive = {}
 
@@ -125,6 +152,37 @@ class C08(object):
                 c['family'] = 'multivariate'      # a decomposition needs two sources and a target
             c['seed'] = rng.randrange(2 ** 31)
             yield c
+        # ---- the same cases held in a log base (values come out in base-b units on both sides of the comparison)
+        for _ in range(N_QUICK_LOG if tier == 'quick' else 2000):
+            n = rng.choice([2, 3, 3, 4])
+            if rng.random() < 0.25:
+                c = block_case(rng, n)
+                c['support'] = 'blocks'
+            else:
+                c = gen.rand_dist_case(rng, nmin=n, nmax=n, amax=3 if n < 4 else 2, bases=['linear'], allow_space=False,
+                                       allow_names=False, max_support=9, klasses=('str', 'tuple'))
+                c['support'] = 'uniform'
+            gen.avoid_subnull(c)
+            c['sparse'], c['trim'] = True, True
+            c['base'] = rng.choice(LOG_BASES)
+            c['transform'] = rng.choice(TRANSFORMS)
+            c['family'] = rng.choice(['shannon', 'shannon', 'multivariate'])
+            c['seed'] = rng.randrange(2 ** 31)
+            yield c
+        # ---- scalar distributions and the binary entropy of a float
+        for _ in range(N_QUICK_SCALAR if tier == 'quick' else 1500):
+            n = rng.choice([1, 2, 3])
+            c = gen.rand_dist_case(rng, nmin=n, nmax=n, amax=4 if n < 3 else 3, bases=['linear'], allow_space=False,
+                                   allow_names=False, max_support=9, klasses=('str', 'tuple'))
+            c['support'] = 'uniform'
+            gen.avoid_subnull(c)
+            c['sparse'], c['trim'] = True, True
+            c['base'] = rng.choice(['linear', 'linear', 'linear'] + LOG_BASES)
+            c['atoms'] = rng.choice(['outcome', 'outcome', 'int'])
+            c['transform'] = rng.choice(SCALAR_TRANSFORMS)
+            c['family'] = 'scalar'
+            c['seed'] = rng.randrange(2 ** 31)
+            yield c
 
     def shrink(self, case):
         return []
@@ -139,6 +197,17 @@ class C08(object):
         outs = [list(o) for o in case['outs']]
         pmf = [float(Fraction(p)) for p in case['pmf']]
         ident = lambda i: i
+        base = case.get('base', 'linear')
+        zero = gen.log_of(Fraction(0), base)
+
+        def mk(outcomes, probs, **kw):
+            # the transformed distribution is built in the SAME base (log base b: stored values log_b p; null = -inf, or +inf
+            # for b < 1), so that both values of a comparison are in the same unit
+            if base != 'linear':
+                probs = [gen.log_of(Fraction(p), base) for p in probs]
+                kw['base'] = base
+            return dit.Distribution(outcomes, probs, **kw)
+
         if T in ('relabel', 'relabel-reverse'):
             maps = []
             for i in range(n):
@@ -146,14 +215,14 @@ class C08(object):
                 tgt = list(reversed(syms)) if T == 'relabel-reverse' else list(rs.permutation(range(6))[:len(syms)])
                 maps.append(dict(zip(syms, [int(x) for x in tgt])))
             outs2 = [[maps[i][o[i]] for i in range(n)] for o in outs]
-            return dit.Distribution([gen.to_py(o, klass) for o in outs2], pmf), ident
+            return mk([gen.to_py(o, klass) for o in outs2], pmf), ident
         if T == 'class':
             other = 'tuple' if gen.is_str_class(klass) else 'str'
-            return dit.Distribution([gen.to_py(o, other) for o in outs], pmf), ident
+            return mk([gen.to_py(o, other) for o in outs], pmf), ident
         if T == 'row-order':
             order = list(rs.permutation(len(outs)))
             kw = [{}, {'sort': False}, {'sort': False, 'sparse': False}, {'sparse': False}][int(rs.randint(4))]
-            return dit.Distribution([gen.to_py(outs[i], klass) for i in order], [pmf[i] for i in order], **kw), ident
+            return mk([gen.to_py(outs[i], klass) for i in order], [pmf[i] for i in order], **kw), ident
         if T == 'dense':
             d2 = d.copy()
             d2.make_dense()
@@ -161,8 +230,8 @@ class C08(object):
         if T == 'pad-space':
             alph = [sorted(set(o[i] for o in outs) | {5}) for i in range(n)]
             space = [gen.to_py(list(o), klass) for o in itertools.product(*alph)]
-            return dit.Distribution([gen.to_py(o, klass) for o in outs], pmf, sample_space=space,
-                                    sparse=bool(rs.randint(2)), trim=False), ident
+            return mk([gen.to_py(o, klass) for o in outs], pmf, sample_space=space,
+                      sparse=bool(rs.randint(2)), trim=False), ident
         if T == 'names':
             d2 = d.copy()
             names = [str(x) for x in rs.permutation(list('XYZWAB'))[:n]]     # index order != alphabetical order
@@ -174,14 +243,13 @@ class C08(object):
             perm = [int(x) for x in rs.permutation(n)]           # new variable j is old variable perm[j]
             outs2 = [[o[perm[j]] for j in range(n)] for o in outs]
             inv = {perm[j]: j for j in range(n)}
-            return dit.Distribution([gen.to_py(o, klass) for o in outs2], pmf), (lambda i: inv[i])
+            return mk([gen.to_py(o, klass) for o in outs2], pmf), (lambda i: inv[i])
         if T == 'log-sparse':
             # explicit zero outcomes stored, untrimmed
             alph = [sorted(set(o[i] for o in outs)) for i in range(n)]
             full = [list(o) for o in itertools.product(*alph)]
             extra = [o for o in full if o not in outs][:3]
-            return dit.Distribution([gen.to_py(o, klass) for o in outs + extra], pmf + [0.0] * len(extra),
-                                    trim=False), ident
+            return mk([gen.to_py(o, klass) for o in outs + extra], pmf + [0.0] * len(extra), trim=False), ident
         if T in ZERO_ROUTES:
             # zero-probability outcomes of the sample space (any subset of them, often all) are STORED while the
             # distribution stays flagged sparse; three routes of the public API lead there
@@ -194,12 +262,11 @@ class C08(object):
             if T == 'zeros-ctor':
                 rows = [(o, p) for o, p in zip(outs, pmf)] + [(o, 0.0) for o in extra if o not in outs]
                 order = [int(j) for j in rs.permutation(len(rows))]
-                return dit.Distribution([gen.to_py(rows[j][0], klass) for j in order], [rows[j][1] for j in order],
-                                        trim=False), ident
+                return mk([gen.to_py(rows[j][0], klass) for j in order], [rows[j][1] for j in order], trim=False), ident
             d2 = d.copy()
             if T == 'zeros-assigned':
                 for o in extra:
-                    d2[gen.to_py(o, klass)] = 0.0
+                    d2[gen.to_py(o, klass)] = zero
             else:
                 d2.make_dense()
                 d2.make_sparse(trim=False)
@@ -234,7 +301,7 @@ class C08(object):
                         row[noise] = sym
                     outs2.append(row)
                     pmf2.append(p * w)
-            return dit.Distribution([gen.to_py(o, klass) for o in outs2], pmf2), (lambda i: pos[i])
+            return mk([gen.to_py(o, klass) for o in outs2], pmf2), (lambda i: pos[i])
         raise ValueError(T)
 
     @staticmethod
@@ -351,7 +418,8 @@ class C08(object):
         r = core.Result()
         r.site = 'C08.%s.%s' % (case['family'], case['transform'])
         r.features = ['family=%s' % case['family'], 'transform=%s' % case['transform'], 'n=%d' % case['n'],
-                      'klass=%s' % case['klass'], 'support=%s' % case.get('support', 'uniform')]
+                      'klass=%s' % case['klass'], 'support=%s' % case.get('support', 'uniform'),
+                      'base=%s' % case.get('base', 'linear')]
         try:
             self.run_inner(case, drv, r)
         except core.DriverError:
@@ -369,6 +437,11 @@ class C08(object):
         r.nontrivial = len(case['outs']) >= 3
         if case['family'] == 'divergence':
             return self.run_divergence(case, d, rs, r)
+        if case['family'] == 'scalar':
+            return self.run_scalar(case, d, rs, r)
+        base = case.get('base', 'linear')
+        # a table kept in log base b yields base-b units (entropy's docstring): value * log2(b) is the amount in bits
+        unit = 1.0 if base == 'linear' else math.log2(gen.base_num(base))
         d2, addr = self.transform(case, d, rs)
         ident = lambda i: i
         for name, f in self.measures(case, np.random.RandomState(case['seed'] + 1)):
@@ -389,6 +462,28 @@ class C08(object):
                 r.detail = {'measure': name, 'before': str(a), 'after': str(b)}
                 return
         n = case['n']
+        if case['family'] == 'shannon':
+            # the common value itself, from the definition H[S] = -sum p(s) log p(s) over the exact marginal of S (zero
+            # probabilities contribute nothing), for every non-empty set S of variables, in the unit of the base
+            from dit.shannon import entropy
+            rows_def = [(list(o), Fraction(p)) for o, p in zip(case['outs'], case['pmf'])]
+            subsets = [list(S) for k in range(1, n + 1) for S in itertools.combinations(range(n), k)]
+            for S in subsets:
+                want = entropy_from_definition(rows_def, S) / unit
+                forms = [(d, ident, 'the distribution'), (d2, addr, 'its form after "%s"' % case['transform'])]
+                for dd, aa, what in forms:
+                    got = float(entropy(dd, [aa(i) for i in S]))
+                    if not self.same(want, got, 1e-9):
+                        r.oracle_fail = ('entropy%s = %r on %s (base %s); -sum p log p over the exact marginal is %r'
+                                         % (S, got, what, base, want))
+                        r.detail = {'measure': 'entropy', 'rvs': S, 'observed': got, 'expected': want, 'base': str(base)}
+                        return
+            # rvs left out: the entropy of all variables
+            got, want = float(entropy(d)), entropy_from_definition(rows_def, list(range(n))) / unit
+            if not self.same(want, got, 1e-9):
+                r.oracle_fail = 'entropy(d) = %r (base %s); -sum p log p over the outcomes is %r' % (got, base, want)
+                r.detail = {'measure': 'entropy', 'rvs': None, 'observed': got, 'expected': want, 'base': str(base)}
+                return
         if case['family'] == 'common':
             # the common value itself, from the definition of K (components of the support), for the groups used above
             rows_def = [(list(o), Fraction(p)) for o, p in zip(case['outs'], case['pmf'])]
@@ -404,16 +499,142 @@ class C08(object):
                         r.detail = {'measure': 'gk_common_information', 'groups': groups, 'observed': got, 'expected': want}
                         return
         # correspondence: the model's value for a representative entropy-combination measure
-        rows = [(gen.from_py(o, case['klass']), float(v)) for o, v in zip(d.outcomes, d.pmf)]
+        rows = [(gen.from_py(o, case['klass']), gen.lin_of(v, base)) for o, v in zip(d.outcomes, d.pmf)]
         ftab = [[o, f2bits(v)] for o, v in rows]
         import dit.multivariate as mv
         groups = [[i] for i in range(n)]
         for name in ('total_correlation', 'dual_total_correlation', 'coinformation'):
             mval = bits2f(drv.call('combf', [name, 0, groups, [], ftab]))
             for dd, aa in ((d, ident), (d2, addr)):
-                v = float(getattr(mv, name)(dd, [[aa(i)] for i in range(n)]))
+                v = float(getattr(mv, name)(dd, [[aa(i)] for i in range(n)])) * unit
                 if abs(v - mval) > 1e-9:
-                    r.mismatch = '%s: impl %r (after "%s") model %r' % (name, v, case['transform'], mval)
+                    r.mismatch = '%s: impl %r bits (after "%s", base %s) model %r' % (name, v, case['transform'], base, mval)
+                    return
+
+    # ------------------------------------------------------------------ scalar distributions, binary entropy
+    def scalar_atoms(self, case, outs, kind):
+        """The scalar outcomes standing for the joint outcomes `outs`: the outcome itself (a string or a tuple, taken as one
+        atom) or an integer code (injective, increasing with the outcome)."""
+        if kind == 'int':
+            return [sum(x * 6 ** (len(o) - 1 - i) for i, x in enumerate(o)) for o in outs]
+        return [gen.to_py(o, case['klass']) for o in outs]
+
+    def run_scalar(self, case, d, rs, r):
+        """entropy / perplexity / extropy (any base) and Renyi / Tsallis entropy (linear) of a ScalarDistribution whose atoms
+        carry the probabilities of the case: unchanged by a bijective renaming of the atoms, the atom class, the input
+        order, stored / assigned zeros, a larger sample space, the pmf-only form, and equal to the value on the joint
+        distribution the atoms were taken from; entropy also against its definition.  Then the binary entropy of a
+        float p: h(p) from the definition, = h(1 - p), = the entropy of a two-outcome distribution in any class."""
+        dit = import_dit()
+        import dit.multivariate as mv
+        import dit.other as O
+        from dit.shannon import entropy
+        SD = dit.ScalarDistribution
+        base = case.get('base', 'linear')
+        unit = 1.0 if base == 'linear' else math.log2(gen.base_num(base))
+        zero = gen.log_of(Fraction(0), base)
+        T, kind, n = case['transform'], case.get('atoms', 'outcome'), case['n']
+        outs = [list(o) for o in case['outs']]
+        fr = [Fraction(p) for p in case['pmf']]
+        lp = [gen.log_of(p, base) for p in fr]
+        kwb = {} if base == 'linear' else {'base': base}
+        atoms = self.scalar_atoms(case, outs, kind)
+        r.features.append('atoms=%s' % kind)
+        sd = SD(atoms, lp, **kwb)
+        # outcomes of the Cartesian product of the alphabets (with one more symbol) that the case does not list
+        alph = [sorted(set(o[i] for o in outs) | {5}) for i in range(n)]
+        spare = [list(o) for o in itertools.product(*alph) if list(o) not in outs]
+        spare = [spare[int(j)] for j in rs.permutation(len(spare))[:int(rs.randint(1, 5))]]
+        extra = self.scalar_atoms(case, spare, kind)
+        if T in ('relabel', 'relabel-reverse'):
+            # a bijection of the atoms onto themselves (order-reversing, or any), for integers followed by a shift
+            srt = sorted(atoms)
+            tgt = list(reversed(srt)) if T == 'relabel-reverse' else [srt[int(j)] for j in rs.permutation(len(srt))]
+            m = dict(zip(srt, tgt))
+            shift = int(rs.randint(0, 50)) if kind == 'int' else None
+            sd2 = SD([m[a] + shift if kind == 'int' else m[a] for a in atoms], lp, **kwb)
+        elif T == 'class':
+            if kind == 'int':
+                sd2 = SD(self.scalar_atoms(case, outs, 'outcome'), lp, **kwb)
+            else:
+                other = 'tuple' if gen.is_str_class(case['klass']) else 'str'
+                sd2 = SD([gen.to_py(o, other) for o in outs] if rs.randint(2) else self.scalar_atoms(case, outs, 'int'), lp, **kwb)
+        elif T == 'row-order':
+            order = [int(j) for j in rs.permutation(len(atoms))]
+            kw = [{}, {'sort': False}, {'sort': False, 'sparse': False}, {'sparse': False}][int(rs.randint(4))]
+            kw.update(kwb)
+            sd2 = SD([atoms[j] for j in order], [lp[j] for j in order], **kw)
+        elif T == 'dense':
+            sd2 = SD(atoms, lp, sample_space=atoms + extra, **kwb)
+            sd2.make_dense()
+        elif T == 'pad-space':
+            sd2 = SD(atoms, lp, sample_space=sorted(atoms + extra), sparse=bool(rs.randint(2)), trim=False, **kwb)
+        elif T == 'zeros-ctor':
+            rows = list(zip(atoms, lp)) + [(a, zero) for a in extra]
+            order = [int(j) for j in rs.permutation(len(rows))]
+            sd2 = SD([rows[j][0] for j in order], [rows[j][1] for j in order], trim=False, **kwb)
+        elif T == 'zeros-assigned':
+            sd2 = SD(atoms, lp, sample_space=atoms + extra, **kwb)
+            for a in extra:
+                sd2[a] = zero
+        elif T == 'pmf-only':
+            # outcomes left out: the integers 0 .. k-1 stand for them
+            sd2 = SD(lp, **kwb)
+        elif T == 'from-joint':
+            sd2 = SD.from_distribution(d)
+        else:
+            raise ValueError(T)
+        fns = [('entropy', lambda x: entropy(x)), ('multivariate.entropy', lambda x: mv.entropy(x)),
+               ('perplexity', lambda x: O.perplexity(x)), ('extropy', lambda x: O.extropy(x))]
+        if base == 'linear':
+            fns += [('renyi_entropy(2)', lambda x: O.renyi_entropy(x, 2)), ('tsallis_entropy(3)', lambda x: O.tsallis_entropy(x, 3)),
+                    ('renyi_entropy(0)', lambda x: O.renyi_entropy(x, 0))]
+        for name, f in fns:
+            a = float(f(sd))
+            try:
+                b, c = float(f(sd2)), float(f(d))
+            except Exception as e:  # noqa
+                import traceback
+                r.oracle_fail = ('%s = %s on the scalar distribution but raises %s: %s after the transformation "%s" / on '
+                                 'the joint distribution' % (name, a, type(e).__name__, str(e)[:120], T))
+                r.detail = {'measure': name, 'before': str(a), 'traceback': traceback.format_exc()[-700:]}
+                return
+            if not self.same(a, b, 1e-9):
+                r.oracle_fail = '%s = %r on the scalar distribution but %r after the transformation "%s"' % (name, a, b, T)
+                r.detail = {'measure': name, 'before': str(a), 'after': str(b)}
+                return
+            if not self.same(a, c, 1e-9):
+                r.oracle_fail = ('%s = %r on the scalar distribution but %r on the joint distribution with the same '
+                                 'probabilities' % (name, a, c))
+                r.detail = {'measure': name, 'scalar': str(a), 'joint': str(c)}
+                return
+        rows_def = [(o, p) for o, p in zip(outs, fr)]
+        want = entropy_from_definition(rows_def, list(range(n))) / unit
+        for x, what in ((sd, 'the scalar distribution'), (sd2, 'its form after "%s"' % T)):
+            got = float(entropy(x))
+            if not self.same(want, got, 1e-9):
+                r.oracle_fail = 'entropy = %r on %s (base %s); -sum p log p over its outcomes is %r' % (got, what, base, want)
+                r.detail = {'measure': 'entropy', 'observed': got, 'expected': want, 'base': str(base)}
+                return
+        # ---- binary entropy: a float p stands for the distribution (p, 1 - p)
+        h = lambda q: -sum(float(t) * math.log2(float(t)) for t in (q, 1 - q) if t > 0)
+        for q in sorted(set(fr)):
+            p = float(q)
+            want = h(q)
+            klass = case['klass']
+            two = [gen.to_py([0], klass), gen.to_py([1], klass)]
+            forms = [('entropy(p)', lambda: entropy(p)), ('entropy(1 - p)', lambda: entropy(1 - p)),
+                     ('entropy(numpy.float64(p))', lambda: entropy(np.float64(p))),
+                     ('entropy(ScalarDistribution([p, 1 - p]))', lambda: entropy(SD([p, 1 - p]))),
+                     ('entropy(ScalarDistribution([1 - p, p]))', lambda: entropy(SD([1 - p, p]))),
+                     ('entropy(Distribution(%r, [p, 1 - p]))' % (two,), lambda: entropy(dit.Distribution(two, [p, 1 - p]))),
+                     ('entropy(Distribution(%r, [1 - p, p]), [0])' % (two,), lambda: entropy(dit.Distribution(two, [1 - p, p]), [0])),
+                     ('extropy(p)', lambda: O.extropy(p))]      # two outcomes: extropy = entropy
+            for name, f in forms:
+                got = float(f())
+                if not self.same(want, got, 1e-9):
+                    r.oracle_fail = '%s = %r for p = %r; -p log2 p - (1-p) log2 (1-p) = %r' % (name, got, p, want)
+                    r.detail = {'measure': name, 'p': p, 'observed': got, 'expected': want}
                     return
 
     def run_divergence(self, case, d, rs, r):
